@@ -68,6 +68,7 @@ type invIn struct {
 	Kind  string `json:"kind,omitempty"`  // how an attempt fails: "500" | "reset"
 	Idle  int    `json:"idle,omitempty"`  // ms between the extension's GET /next and the invocation
 	Multi bool   `json:"multi,omitempty"` // datapoints in one datagram (else one datagram each)
+	Hold  int    `json:"hold,omitempty"`  // ms the function keeps running after its datapoints were accepted, before it returns
 }
 
 type input struct {
@@ -79,6 +80,7 @@ type input struct {
 	MaxElapMs int     `json:"maxelap"`            // forwarder max-request-elapsed-time in ms (0 = 1ns: no retries)
 	Slots     int     `json:"slots"`              // consolidator slots = parsers
 	Compress  bool    `json:"compress"`
+	FlushMs   int     `json:"flushms,omitempty"` // http-transport.flush-interval in ms (0 = default 1 s); README: not respected in manual-flush mode
 	Cold      int     `json:"cold,omitempty"`  // cold-start records (platform.initStart, platform.initRuntimeDone, platform.initReport): 1 = one batch during the init phase (before the first GET /next), 2 = one batch at the start of invocation 1, 3 = inside the runtimeDone batch of invocation 1, 4 = three batches during the init phase
 	TSeed     int     `json:"tseed,omitempty"` // seed for the types of the "other" telemetry records
 	DynHdr    bool    `json:"dynhdr,omitempty"` // opt-in demonstration (never generated): http-transport.dynamic-headers = [region]
@@ -425,6 +427,9 @@ func runScenario(in input) (res result) {
 		"compress":                 in.Compress,
 		"max-request-elapsed-time": maxElapsed,
 	}
+	if in.FlushMs > 0 {
+		ht["flush-interval"] = time.Duration(in.FlushMs) * time.Millisecond
+	}
 	if in.DynHdr {
 		ht["dynamic-headers"] = []string{"region"}
 	}
@@ -685,6 +690,9 @@ func runScenario(in input) (res result) {
 			finish(false)
 			return
 		}
+		if iv.Hold > 0 {
+			time.Sleep(time.Duration(iv.Hold) * time.Millisecond)
+		}
 		lg.add(ev{K: "done", N: n})
 		if iv.Late > 0 {
 			var late []int
@@ -927,6 +935,11 @@ func genCase(r *hlib.Rand, k int, tier string) input {
 		in.MaxElapMs = hlib.Pick(r, []int{60, 120})
 	case k%10 == 6:
 		in.Stream = "latedata"
+	case k%10 == 2 || k%10 == 7:
+		// invocations that outlast the forwarder's flush interval: nothing may be flushed or notified
+		// without a runtimeDone (README: flush-interval is not respected in manual-flush mode)
+		in.Stream = "longinv"
+		in.FlushMs = r.Range(20, 60)
 	}
 	in.TSeed = 1 + r.Intn(1<<30)
 	if r.Chance(1, 2) {
@@ -964,6 +977,13 @@ func genCase(r *hlib.Rand, k int, tier string) input {
 			iv.Idle = r.Range(1, 15)
 		}
 		switch in.Stream {
+		case "longinv":
+			if iv.K == 0 && r.Chance(2, 3) {
+				iv.K = r.Range(1, 3)
+			}
+			if i < 2 {
+				iv.Hold = in.FlushMs * r.Range(3, 6)
+			}
 		case "retry":
 			if iv.K > 0 && !retried && r.Chance(1, 2) {
 				retried = true // at most one retried delivery per run keeps the run short
